@@ -103,9 +103,17 @@ fn bigexcess(kind: char, regime_beyond: bool) -> Scenario {
             for i in 0..n {
                 c.insert(i, 1);
             }
+            // (a key that is looked up often and will be inserted with a weight above the
+            // capacity further down)
+            for _ in 0..6 {
+                let _ = c.get(&7000);
+            }
             c.insert(n - 1, grow);
             // the very next operation is the insert of a new key: one eviction batch
-            // (100) has not removed the excess of 799 yet
+            // (100) has not removed the excess of 799 yet. First a popular newcomer heavier
+            // than the whole cache (never retained), then an ordinary one.
+            c.insert(7000, n + 1);
+            let oversized_kept = c.iter().any(|(k, _)| *k == 7000);
             c.insert(6000, 1);
             for i in 0..12 {
                 let _ = c.get(&i);
@@ -118,7 +126,8 @@ fn bigexcess(kind: char, regime_beyond: bool) -> Scenario {
                 c.insert(5000 + i, 1);
             }
             let held: u64 = c.iter().map(|(_, v)| *v as u64).sum();
-            (held, held, c.weighted_size(), c.entry_count())
+            // (an oversized entry that was retained even for one call counts as excess)
+            (if oversized_kept { held.max(n as u64 + 1) } else { held }, held, c.weighted_size(), c.entry_count())
         }
     });
     match r {
